@@ -780,6 +780,8 @@ func (w *c01World) viewVC(c vc.VerifiableCredential, tb *c01Tables) map[string]a
 					e["unmarshals"], e["urlOK"], e["entryId"] = false, false, ""
 				} else {
 					e["purpose"], e["listCred"] = en.StatusPurpose, en.StatusListCredential
+					// deepening round 2: the index TEXT; the model computes strconv.Atoi itself (NutsModel/C01/Atoi.lean), "index" below stays as a cross-check
+					e["indexText"] = en.StatusListIndex
 					// deepening round: the inputs of StatusList2021Entry.Validate the model computes the verdict from (net/url is a contract)
 					_, uerr := url.ParseRequestURI(en.StatusListCredential)
 					e["unmarshals"], e["urlOK"], e["entryId"] = true, uerr == nil, en.ID
